@@ -341,7 +341,6 @@ func TestC08Enum(t *testing.T) {
 	if thorough() {
 		stopStride = 1
 	}
-	idx := 0
 	complete := true
 	matrix := map[string]int{}
 	for si, sc := range c08Scenarios() {
@@ -361,13 +360,12 @@ func TestC08Enum(t *testing.T) {
 					complete = false
 					continue
 				}
-				idx++
-				if idx%nshards != shard {
+				canon := fmt.Sprintf("%s|%d|%s", sc.Name, k, mode)
+				if int(hashString(canon)%uint64(nshards)) != shard {
 					continue
 				}
 				f := &c08Fault{K: k, Mode: mode}
 				r := c08Run(sc, f, uint64(500+si))
-				canon := fmt.Sprintf("%s|%d|%s", sc.Name, k, mode)
 				matrix[fmt.Sprintf("%s %s x %s", r.faultedOn, strings.TrimPrefix(r.faultedNS[strings.Index(r.faultedNS, ".")+1:], "-_-"), mode)]++
 				if r.err != nil {
 					if strings.Contains(r.err.Error(), "HARNESS-ERROR") {
